@@ -1,29 +1,36 @@
-import XModel.RefsTable
+import XModel.RefsLift
 /-!
 # C04 — deferred expressions evaluate to what Python computes on the operand values
 Tie A: the tables are regenerated from the working tree on every run; the per-run obligation is
 `Generated.tbl.ValidOps = true` (`decide`).  The lift below is proved once, for every table.
 -/
 namespace Properties.C04
-open Tables RefsTable
+open Tables RefsTable RefsLift
 
-/-- validity of the extracted tables lifts to every well-formed Python-level term: the node the
-    library builds evaluates to what Python computes directly on the operand values (with NaN for a
-    ZeroDivisionError in exactly the guarded primitives), for any value algebra `ops` -/
+/-- validity of the extracted tables lifts to every well-formed Python-level term OF THE BINARY FRAGMENT
+    (the 18 dunders of `Tables.pySpec`): the node the library builds evaluates to what Python computes
+    directly on the operand values (with NaN for a ZeroDivisionError in exactly the guarded primitives),
+    for any value algebra `ops`.  The lift over everything `ValidOps` checks is
+    `C04_eval_homomorphism_full` below. -/
 theorem C04_eval_homomorphism {V : Type} (f : Full) (hv : f.ValidOps = true) (ops : PyOps V) (term : Term V)
     (hw : WFTerm term) :
     ∃ node, build f.bin term = some node ∧ evalNode f.bin ops node = evalDirect ops term :=
   build_eval f.bin (valid_bin f hv) ops term hw
 
-/-- a valid table defines every in-place operator Python has, with the value case `old ⊕ v` and the
-    expression case `old-expr ⊕ v` built from the same primitive's class -/
+/-- PROJECTION of the validity obligation (no lift): this restates the in-place conjunct of
+    `Full.ValidOps`, i.e. for every in-place operator of `inplaceSpec` the table's row passes `inplaceOk`
+    (present, value case `old ⊕ v`, expression class = `classOfPrim` of the same primitive).  What the
+    rows mean for evaluation is `C04_eval_homomorphism_full` (constructors `iopVal` / `iopExpr`). -/
 theorem C04_inplace_complete (f : Full) (hv : f.ValidOps = true) (d : String) (p : Prim)
     (h : (d, p) ∈ inplaceSpec) : inplaceOk f d p = true := by
   unfold Full.ValidOps at hv
   simp only [Bool.and_eq_true] at hv
   exact List.all_eq_true.mp hv.1.1.2 (d, p) h
 
-/-- `round(x)` passes no `ndigits`, `round(x, n)` / `divmod(x, y)` keep the user's argument -/
+/-- PROJECTION of the validity obligation (no lift): this restates three instances of the builtin
+    conjunct of `Full.ValidOps` (`round(x)` passes no `ndigits`, `round(x, n)` / `divmod(x, y)` keep the
+    user's argument, as recorded in the rows).  What the rows mean for evaluation is
+    `C04_eval_homomorphism_full` (constructor `call`). -/
 theorem C04_builtins (f : Full) (hv : f.ValidOps = true) :
     builtinOk f "__round__" "round" 0 true = true ∧ builtinOk f "__abs__" "abs" 0 false = true ∧
     builtinOk f "__divmod__" "divmod" 0 true = true := by
@@ -34,13 +41,66 @@ theorem C04_builtins (f : Full) (hv : f.ValidOps = true) :
          h ("__abs__", "abs", 0, false) (by simp [builtinSpec]),
          h ("__divmod__", "divmod", 0, true) (by simp [builtinSpec])⟩
 
-/-- the NaN deviation is exactly `ZeroDivisionError`: every other exception an operator raises on the
-    operand values (OverflowError, FloatingPointError, ValueError, TypeError …) reaches the caller -/
+/-- PROJECTION of the validity obligation (no lift): this restates the `propagate` conjunct of
+    `Full.ValidOps`: every probed (class, exception) row of a valid table has `propagates = true`.  It says
+    nothing beyond the rows the extractor probed (OverflowError, FloatingPointError, ArithmeticError,
+    ValueError, TypeError on each class).  In `C04_eval_homomorphism_full` the node semantics `evalNode2`
+    returns NaN for a recorded swallowed exception, and this conjunct is what excludes it. -/
 theorem C04_other_exceptions_propagate (f : Full) (hv : f.ValidOps = true) (r : PropagateRow) (hr : r ∈ f.propagate) :
     r.propagates = true := by
   unfold Full.ValidOps at hv
   simp only [Bool.and_eq_true] at hv
   exact List.all_eq_true.mp hv.1.2 r hr
+
+/-- THE FULL LIFT.  For every table that passes `ValidOps` and `Coherent` (both decidable, both checked
+    on the regenerated table), and every well-formed term over ALL operators `ValidOps` talks about —
+    the 30 binary / reflected dunders of `pySpecFull` (bitwise, shifts, matmul included), the unary
+    operators, the builtin calls with their parameter lists, the in-place operators in the value case and
+    in the expression case — the library's construction succeeds and the node evaluates to what Python
+    computes directly, with NaN exactly at a ZeroDivisionError of the three guarded primitives inside a
+    node (the value case of an in-place operator is plain Python and raises).  Each constructor uses the
+    conjunct of `ValidOps` that talks about it, the `propagate` conjunct included.
+    `Coherent` (one class = one behaviour) is not implied by `ValidOps`; `RefsLift.incoherentUnary` and
+    `RefsLift.incoherentInplace` are `ValidOps`-valid tables for which the conclusion fails. -/
+theorem C04_eval_homomorphism_full {V : Type} (f : Full) (hv : f.ValidOps = true) (hc : f.Coherent = true)
+    (ops : PyOps2 V) (term : Term2 V) (hw : WF2 term) :
+    ∃ node, build2 f term = some node ∧ evalNode2 f ops node = evalDirect2 ops term :=
+  build_eval2 f hv hc ops term hw
+
+/-- on the binary fragment the full lift talks about the same "direct" value as `C04_eval_homomorphism` -/
+theorem C04_full_extends_fragment {V : Type} (ops : PyOps2 V) (t : Term V) (hw : WFTerm t) :
+    WF2 (up t) ∧ evalDirect2 ops (up t) = evalDirect ops.toPyOps t :=
+  ⟨wf2_up t hw, evalDirect2_up ops t⟩
+
+/-- COMPLETENESS.  A valid table lists every dunder of the four specification lists, with the specified
+    class / primitive / side / parameters.  (Immediate: `ValidOps` is "for every specification row the
+    table's row agrees", and a missing row fails the check.) -/
+theorem C04_table_complete (f : Full) (hv : f.ValidOps = true) :
+    (∀ d m, (d, m) ∈ pySpecFull → ∃ row c, row ∈ f.bin.dunders ∧ row.name = d ∧
+        c ∈ f.bin.classes ∧ c.cls = row.cls ∧
+        f.bin.findDunder d = some row ∧ f.bin.findClass row.cls = some c ∧
+        c.prim = m.prim ∧ c.guard = guarded m.prim ∧ c.swapped = false ∧
+        (row.side = .selfLhs ↔ m.selfFirst = true)) ∧
+    (∀ d p, (d, p) ∈ unarySpec → ∃ r, r ∈ f.unary ∧ r.dunder = d ∧
+        f.unary.find? (·.dunder = d) = some r ∧ r.prim = p) ∧
+    (∀ d op n u, (d, op, n, u) ∈ builtinSpec → ∃ r, r ∈ f.builtin ∧ r.dunder = d ∧
+        f.builtin.find? (·.dunder = d) = some r ∧ r.op = op ∧ r.defaultParams = n ∧ r.passesUserParams = u) ∧
+    (∀ d p, (d, p) ∈ inplaceSpec → ∃ r cn, r ∈ f.inplace ∧ r.dunder = d ∧
+        f.inplace.find? (·.dunder = d) = some r ∧ r.present = true ∧ r.valuePrim = some p ∧
+        r.exprCls = some cn ∧ classOfPrim f.bin p = some cn) :=
+  table_complete f hv
+
+/-- non-vacuity of the full lift: a hand-written table with every row of the specification is valid and
+    coherent, a term using reflected, unary and builtin operators is well formed, and both sides are 54 -/
+example : ∃ node, build2 RefsLift.sample sampleTerm = some node ∧
+    evalNode2 RefsLift.sample intOps node = evalDirect2 intOps sampleTerm :=
+  C04_eval_homomorphism_full RefsLift.sample sample_valid sample_coherent intOps sampleTerm sampleTerm_wf
+example : (build2 RefsLift.sample sampleTerm).map (evalNode2 RefsLift.sample intOps) = some (.ok 54) := rfl
+/-- completeness instantiated, and its contrapositive on a table that lost the `__invert__` row -/
+example : ∃ r, r ∈ RefsLift.sample.unary ∧ r.dunder = "__invert__" ∧
+    RefsLift.sample.unary.find? (·.dunder = "__invert__") = some r ∧ r.prim = .invert :=
+  (C04_table_complete RefsLift.sample sample_valid).2.1 "__invert__" .invert (by simp [unarySpec])
+example : ({ RefsLift.sample with unary := RefsLift.sample.unary.take 2 } : Full).ValidOps = false := by decide
 
 /-- non-vacuity: the hand-written excerpt of the pinned tree's binary table is valid, a swapped
     `__rsub__` is not -/
